@@ -18,10 +18,14 @@ func h01Word(i int) uint32 {
 // H01: symbolic n over [1,2^32) that is not a power of two; one path per number
 // of rejected words (bounded by the unwinding bound of the harness).
 func H01() {
-	vUseInt(true)
 	n := vU32("n")
 	vAssume(n >= 1)
 	vAssume(n&(n-1) != 0)
+	// Lemma (bit-vector query, instant on all three solvers): only powers of two
+	// divide 2^32. The integer back ends cannot derive it, and a kernel that
+	// computes its threshold from 2^32 rather than 2^32-1 needs it.
+	vAssert((uint64(1)<<32)%uint64(n) != 0, "lemma: a bound that is not a power of two does not divide 2^32")
+	vUseInt(true)
 	T := vU64("T")
 	vAssume(T%uint64(n) == 0 && T <= 1<<32-1 && T+uint64(n) > 1<<32-1)
 	// Lemma, proved once by the solver from T's defining property: the threshold
@@ -30,6 +34,8 @@ func H01() {
 	// closed form is not the oracle: it is derived from it.)
 	closed := uint64(uint32(0xFFFFFFFF - 0xFFFFFFFF%n))
 	vAssert(T == closed, "lemma: the largest multiple of n not exceeding 2^32-1 is 2^32-1 - (2^32-1) mod n")
+	closed64 := (uint64(1) << 32) - (uint64(1)<<32)%uint64(n)
+	vAssert(T == closed64, "lemma: for a bound that does not divide 2^32 it is also 2^32 - 2^32 mod n")
 
 	var r uint32
 	panicked := vTry(func() { r = randomUint32n(n) })
